@@ -12,7 +12,7 @@ def float_events(seed=0, n=40):
     rng = np.random.default_rng(seed)
     ev = []
     xs = list(rng.normal(size=n)) + list(10.0 ** rng.uniform(-300, 300, n)) + [0.0, -0.0, 1.0, -1.0, 5e-324, 1.7976931348623157e308, np.inf, -np.inf]
-    un = {"neg": np.negative, "abs": np.abs, "sqrt": np.sqrt, "cbrt": np.cbrt, "exp": np.exp, "ln": np.log, "log10": np.log10,
+    un = {"neg": np.negative, "abs": np.abs, "sqrt": np.sqrt, "cbrt": np.cbrt, "exp": np.exp, "expm1": np.expm1, "log1p": np.log1p, "ln": np.log, "log10": np.log10,
           "sin": np.sin, "cos": np.cos, "tan": np.tan, "asin": np.arcsin, "acos": np.arccos, "atan": np.arctan,
           "floor": np.floor, "nextup": lambda x: np.nextafter(x, np.inf), "nextdown": lambda x: np.nextafter(x, -np.inf),
           "f32": lambda x: np.float64(np.float32(x)), "radians": np.radians, "degrees": np.degrees}
